@@ -122,20 +122,44 @@ class C10:
                 continue
             kinds = ["t", "t"] if geom_cls == "TimeInterval" else ["t", "f", "t", "f"]
             names = ["start", "end"] if geom_cls == "TimeInterval" else ["start", "low", "end", "high"]
-            secs_cases = [(True,), (False,)] if sample_fields else [(True,)]
-            for adjv, ne1, (secs_given,) in itertools.product((True, False), (True, False), secs_cases):
+            # onset and offset are given in seconds or in samples independently of each other
+            secs_cases = list(itertools.product((True, False), repeat=2)) if sample_fields else [(True, True)]
+            all_fields = tuple(tfields) + tuple(ffields) + tuple(sample_fields)
+            for adjv, ne1, secs in itertools.product((True, False), (True, False), secs_cases):
                 penv = {adj: adjv, ("cmp", "ne", te, ("const", 1)): ne1, ("cmp", "eq", te, ("const", 1)): not ne1,
                         ("cmp", "ne", te, ("const", 1.0)): ne1, ("cmp", "eq", te, ("const", 1.0)): not ne1}
-                for f in tfields:
-                    penv[("cmp", "is", ("attr", obj, f), NONE)] = not secs_given
-                    penv[("cmp", "isnot", ("attr", obj, f), NONE)] = secs_given
-                for f in sample_fields:
-                    penv[("cmp", "is", ("attr", obj, f), NONE)] = secs_given
-                    penv[("cmp", "isnot", ("attr", obj, f), NONE)] = not secs_given
+                for i_, f in enumerate(tfields):
+                    penv[("cmp", "is", ("attr", obj, f), NONE)] = not secs[i_]
+                    penv[("cmp", "isnot", ("attr", obj, f), NONE)] = secs[i_]
+                for i_, f in enumerate(sample_fields):
+                    penv[("cmp", "is", ("attr", obj, f), NONE)] = secs[i_]
+                    penv[("cmp", "isnot", ("attr", obj, f), NONE)] = not secs[i_]
                 adjusting = adjv and ne1
-                label = (f"adjust_time_expansion={adjv}, time_expansion {'!=' if ne1 else '=='} 1, {'seconds' if secs_given else 'samples'} given")
+                given = "seconds" if all(secs) else ("samples" if not any(secs) else f"onset in {'seconds' if secs[0] else 'samples'}, offset in {'seconds' if secs[1] else 'samples'}")
+                label = (f"adjust_time_expansion={adjv}, time_expansion {'!=' if ne1 else '=='} 1, {given} given")
+                # which field of the element each coordinate is read from on this path
+                own = {"start": tfields[0] if secs[0] else sample_fields[0], "end": tfields[1] if secs[1] else sample_fields[1]}
+                if ffields:
+                    own.update(low=ffields[0], high=ffields[1])
+                # an element that carries each time in one of the two forms is convertible: no rejection may be live on this path
+                from sa.peval import truth as _truth
+                for r_ in s.raises:
+                    if _truth(peval(r_.live, penv)) is True:
+                        ctx.bad("R10.8", file, fname, f"raise under `{show(r_.live)[:70]}`",
+                                f"{fname}, path [{label}]: the element is rejected (`{show(r_.live)[:90]}`) although its onset and offset are "
+                                f"both given: the test for a missing time looks at the wrong field", r_.lineno, witness={"path": label})
                 for nm, kind, c in zip(names, kinds, coords[1]):
                     v = peval(c, penv)
+                    if not any(x[0] == "ite" for x in walk(v)):
+                        read = sorted({x[2] for x in walk(v) if x[0] == "attr" and x[1] == obj and x[2] in all_fields})
+                        if read == [own[nm]]:
+                            ctx.ok("R10.8", site, f"{nm} [{label}]: read from {objp}.{own[nm]}")
+                        else:
+                            ctx.bad("R10.8", file, fname, f"{nm} = {show(v)[:70]} read from {read or 'no field'}",
+                                    f"{fname}, path [{label}]: the {nm} coordinate `{show(v)[:90]}` is computed from {objp}.{', '.join(read) or '(no field)'} "
+                                    f"instead of {objp}.{own[nm]}: the imported {'interval' if not ffields else 'box'} does not have the element's "
+                                    f"{ {'start': 'onset', 'end': 'offset', 'low': 'lower frequency', 'high': 'upper frequency'}[nm] }", s.node.lineno,
+                                    witness={"path": label, "coordinate": nm, "read_from": read, "required": own[nm]})
                     if any(x[0] == "ite" for x in walk(v)):
                         ctx.undec("R10.1", site, f"path [{label}] not resolved for {nm}: {show(v)[:60]}")
                         continue
@@ -693,6 +717,7 @@ class C10:
 
 def run(ctx: Ctx):
     ctx.rule("R10.1", "dimension analysis of imported coordinates on every path", 30)
+    ctx.rule("R10.8", "every imported coordinate is read from its own field of the element, on every path", 30)
     ctx.rule("R10.2", "export fields from bounds positions; floor sample indices; Nyquist cap", 12)
     ctx.rule("R10.3", "cast / raise switches reject exactly the documented cases", 4)
     ctx.rule("R10.4", "skip iff ignore_errors else re-raise; append outside handler", 4)
